@@ -121,8 +121,8 @@ int __wrap_select(int n, fd_set *r, fd_set *w, fd_set *e, struct timeval *tv) {
 enum PK { P_POST, P_TIMER, P_TCANCEL, P_IO, P_IOCANCEL, P_MAX };
 static const char *PKN[] = {"post", "timer", "timer+cancel", "io+ready", "io+cancel"};
 enum { O_STOPSELF = 100 };       // internal: carried onto the loop thread, calls stop() from a handler
-enum OpK { O_POST, O_THROW, O_TIMER, O_TCANCEL, O_ARM, O_IOCANCEL, O_READY, O_HUP, O_FLUSH, O_YIELD, O_DT, O_DTCANCEL, O_SSREAD, O_SSWRITE, O_SSCANCEL, O_MAX };
-static const char *OPN[] = {"post", "throw", "timer", "tcancel", "arm", "iocancel", "ready", "hup", "flush", "yield", "dt", "dtcancel", "ssread", "sswrite", "sscancel"};
+enum OpK { O_POST, O_THROW, O_TIMER, O_TCANCEL, O_ARM, O_IOCANCEL, O_READY, O_HUP, O_FLUSH, O_YIELD, O_DT, O_DTCANCEL, O_SSREAD, O_SSWRITE, O_SSCANCEL, O_CLOSE, O_MAX };
+static const char *OPN[] = {"post", "throw", "timer", "tcancel", "arm", "iocancel", "ready", "hup", "flush", "yield", "dt", "dtcancel", "ssread", "sswrite", "sscancel", "close"};
 struct Op { int k = 0, a = 0, b = 0, c = 0; };
 // One io_service lives through 1..3 epochs: run() ... everything drained ... stop() ... run() returns ... reset() ... run() again.
 //   stop_mode     how the epoch's run() is ended: 0 stop() from another thread while the loop sleeps in the reactor, 1 stop() from a
@@ -130,17 +130,36 @@ struct Op { int k = 0, a = 0, b = 0, c = 0; };
 //   restart_mode  who runs the next epoch: 0 the same thread calls reset() and run() again, 1 the thread is joined, reset(), a new thread
 //   probes        (epochs after the first) operations issued one at a time from a non-loop thread while the loop sleeps in the reactor,
 //                 each waited for before the next one; rerun: the producer programs run again in this epoch after the probes
+// O_CLOSE (a = scenario index, b = packed spec): a wait is armed on a descriptor of its own, then the descriptor is closed the documented
+// way (stream_socket::close(), or cancel_io_events(fd) followed by ::close(fd) - exactly what basic_io_device::close() does), at once a
+// new socket pair is created (it normally receives the number just freed), made ready and a wait is armed on it.
+//   mode 0: closed by the producer thread while the loop sleeps in the reactor        (the cancel is queued, ::close comes first)
+//   mode 1: closed by a handler on the loop thread while descriptor operations are queued behind it
+//   mode 2: closed by a handler on the loop thread, nothing arranged to be queued    (control)
+// kind 0 raw descriptor / 1 stream_socket object (used by one thread at a time, never concurrently); olddir, newdir: 0 in, 1 out, (newdir) 2 both
+struct CloseSpec { int mode, kind, olddir, newdir; };
+static CloseSpec unpack_close(int b) { b = (b % 36 + 36) % 36; return CloseSpec{b % 3, (b / 3) % 2, (b / 6) % 2, (b / 12) % 3}; }
+static int pack_close(int mode, int kind, int olddir, int newdir) { return mode + 3 * kind + 6 * olddir + 12 * newdir; }
+static std::string close_text(int b) {
+    CloseSpec x = unpack_close(b);
+    return std::string(x.mode == 0 ? "other-thread-while-sleeping" : x.mode == 1 ? "loop-handler-ops-queued" : "loop-handler") + (x.kind ? ",stream_socket" : ",raw") + (x.olddir ? ",old=out" : ",old=in") +
+           (x.newdir == 0 ? ",new=in" : x.newdir == 1 ? ",new=out" : ",new=both");
+}
+static const int MAXCS = 6;       // scenario indices 0..5 from the programs, 6 = the prelude issued before run() is called for the first time
 struct Epoch { int stop_mode = 2, restart_mode = 0, rerun = 0; std::vector<int> probes; };
 struct LCase {
     int reactor = 3, fin = 0, npairs = 1, nblocked = 0, nstream = 0, ndt = 0, stop_yield = 0;
     std::vector<std::vector<Op>> progs;
     std::vector<Epoch> eps = std::vector<Epoch>(1);
+    int prelude = -1;                // packed close spec (mode 1) issued before the loop thread exists: every operation is queued, deterministically
     void encode(vr::CaseWriter &w) const {
         w.i(reactor).i(fin).i(npairs).i(nblocked).i(nstream).i(ndt).i(stop_yield).i(progs.size()).nl();
         for (auto &p : progs) { w.i(p.size()); for (auto &o : p) w.i(o.k).i(o.a).i(o.b).i(o.c); w.nl(); }
         w.i(eps.size()).nl();
         for (auto &e : eps) { w.i(e.stop_mode).i(e.restart_mode).i(e.rerun).i(e.probes.size()); for (int k : e.probes) w.i(k); w.nl(); }
+        w.i(prelude).nl();
     }
+    bool has_close() const { if (prelude >= 0) return true; for (auto &p : progs) for (auto &o : p) if (o.k == O_CLOSE) return true; return false; }
     int nprobe_slots() const { int n = 0; for (auto &e : eps) for (int k : e.probes) if (k == P_IO || k == P_IOCANCEL) n++; return n; }
     static LCase decode(vr::CaseReader &r) {
         LCase c; c.reactor = r.i(); c.fin = r.i(); c.npairs = r.i(); c.nblocked = r.i(); c.nstream = r.i(); c.ndt = r.i(); c.stop_yield = r.i();
@@ -149,6 +168,7 @@ struct LCase {
         if (r.more()) {          // case files written before epochs existed end here: one epoch, stop at once
             int ne = r.i(); if (ne < 1) ne = 1; c.eps.assign(ne, Epoch());
             for (auto &e : c.eps) { e.stop_mode = r.i(); e.restart_mode = r.i(); e.rerun = r.i(); int n = r.i(); e.probes.resize(n); for (auto &k : e.probes) k = ((int)r.i() % P_MAX + P_MAX) % P_MAX; }
+            if (r.more()) c.prelude = (int)r.i();
         }
         return c;
     }
@@ -165,8 +185,10 @@ struct LCase {
                 else if (o.k == O_ARM) s << "(s" << o.a << (o.b ? ",out" : ",in") << (o.c ? ",loop" : "") << ")";
                 else if (o.k == O_IOCANCEL || o.k == O_READY) s << "(s" << o.a << (o.k == O_READY ? (o.b ? ",out" : ",in") : (o.c ? ",loop" : o.b & 1 ? ",check" : "")) << ")";
                 else if (o.k == O_TCANCEL) s << "(P" << o.a << "#" << o.b << ")";
+                else if (o.k == O_CLOSE) s << "(#" << o.a % MAXCS << "," << close_text(o.b) << ")";
             }
         }
+        if (prelude >= 0) s << " || before run(): close(" << close_text(prelude) << ")";
         if (eps.size() > 1 || eps[0].stop_mode != 2) {
             s << " || epochs=" << eps.size();
             for (size_t e = 0; e < eps.size(); e++) {
@@ -368,7 +390,7 @@ struct Scn {
         srv->post(F0{this, id});
         wait_until([this, id] { return hs[id].count > 0; });
     }
-    void do_arm(int slot, int dir, int p) {
+    void do_arm(int slot, int dir, int p, aio::basic_io_device *dev = nullptr) {
         int id;
         {
             std::lock_guard<std::mutex> l(I.m);
@@ -387,7 +409,8 @@ struct Scn {
             if (cancel_inflight[slot] > 0) cls["arm.during_cancel_call"]++;
             else if (last_cancel_end[slot] > 0) cls["arm.after_earlier_cancel"]++;
         }
-        srv->set_io_event(fds[slot], dir ? aio::io_service::out : aio::io_service::in, FE{this, id});
+        if (dev) { if (dir) dev->on_writeable(FE{this, id}); else dev->on_readable(FE{this, id}); }
+        else srv->set_io_event(fds[slot], dir ? aio::io_service::out : aio::io_service::in, FE{this, id});
         std::lock_guard<std::mutex> l(I.m); hs[id].arm_end = tick++;
     }
     // check: after the cancel returned, flush twice and require every handler whose registration call had returned before the cancel call
@@ -496,6 +519,7 @@ struct Scn {
     // executed on the loop thread
     void exec_on_loop(Op const &o, int p) {
         switch (o.k) {
+        case O_CLOSE: close_core(o.a, p); break;
         case O_STOPSELF: { { std::lock_guard<std::mutex> l(I.m); I.stop_called = true; } srv->stop(); break; }
         case O_ARM: do_arm(o.a % c.nslots(), o.b & 1, p); break;
         case O_IOCANCEL: do_iocancel(o.a % c.nslots(), p, false); break;
@@ -559,6 +583,7 @@ struct Scn {
         case O_READY: do_ready(o.a % c.nslots(), o.b & 1); break;
         case O_HUP: do_hup(o.a % (c.npairs + c.nblocked)); break;
         case O_FLUSH: { { std::lock_guard<std::mutex> l(I.m); cls["flush"]++; } flush(p); break; }
+        case O_CLOSE: close_scenario(o.a % MAXCS, p, false); break;
         case O_YIELD: for (int i = 0; i < o.a; i++) sched_yield(); break;
         case O_DT: case O_DTCANCEL: case O_SSREAD: case O_SSCANCEL: post_carrier(o, p); break;
         case O_SSWRITE: {
@@ -636,10 +661,68 @@ struct Scn {
         wait_until([] { return I.loop_exited; }, true);      // a stop() the sleeping loop never notices shows up as quiescence
     }
     int probe_slot_next = 0;
+    // ---- descriptor closed while its wait is armed, number re-used ----
+    struct CS { CloseSpec sp; int s_old = -1, s_new = -1, s_aux = -1; std::unique_ptr<aio::stream_socket> sock; bool used = false, armed = false; int h_old = -1; std::vector<int> h_new; };
+    std::vector<std::unique_ptr<CS>> css = std::vector<std::unique_ptr<CS>>(MAXCS + 1);
+    // the part that closes and re-uses: on the producer thread (mode 0) or carried onto the loop thread (modes 1, 2)
+    void close_core(int i, int p) {
+        CS &x = *css[i];
+        int oldfd, so = x.s_old, sn = x.s_new;
+        {
+            std::lock_guard<std::mutex> l(I.m);
+            oldfd = fds[so];
+            // from here on the number may name another socket: whatever the old wait reports (canceled, or an event of the new owner of the
+            // number seen by poll/select before the queued removal) is accepted - once
+            ready[so][0] = ready[so][1] = true; hup[so] = true; cancels_started[so]++; cancel_inflight[so]++;
+            cls[std::string("close.") + (x.sp.mode == 0 ? "other_thread_while_sleeping" : x.sp.mode == 1 ? "loop_handler_ops_queued" : "loop_handler")]++;
+            cls[x.sp.kind ? "close.stream_socket" : "close.raw_cancel_then_close"]++;
+        }
+        if (x.sp.kind) { error_code e; x.sock->close(e); }
+        else { srv->cancel_io_events(oldfd); ::close(oldfd); }
+        int sv[2];
+        if (mkpair(sv)) { std::lock_guard<std::mutex> l(I.m); x.armed = true; fds[so] = -1; I.cv.notify_all(); return; }
+        int a = sv[1] == oldfd ? 1 : 0;
+        {
+            std::lock_guard<std::mutex> l(I.m);
+            cancel_inflight[so]--; last_cancel_end[so] = tick++;
+            fds[so] = -1; for (auto &f : allfds) if (f == oldfd) f = -1;
+            bool reused = sv[a] == oldfd;
+            cls[reused ? "fd_number_reused" : "fd_number_not_reused"]++;
+            fds[sn] = sv[a]; peer[sn] = sv[1 - a]; allfds.push_back(sv[1 - a]); if (!x.sp.kind) allfds.push_back(sv[a]);
+        }
+        if (x.sp.kind) x.sock->assign(sv[a]);
+        if (x.sp.newdir != 1) do_ready(sn, 0);            // readable: a byte from the peer; writable: from the start
+        for (int d = 0; d < 2; d++) if (x.sp.newdir == 2 || x.sp.newdir == d) {
+            do_arm(sn, d, p, x.sp.kind ? x.sock.get() : nullptr);
+            std::lock_guard<std::mutex> l(I.m); if (busy[sn][d] >= 0) x.h_new.push_back(busy[sn][d]); cls[d == x.sp.olddir ? "close.new_wait_same_direction" : "close.new_wait_other_direction"]++;
+        }
+        std::lock_guard<std::mutex> l(I.m); x.armed = true; I.cv.notify_all();
+    }
+    bool wait_closed(int i) {
+        CS *x = css[i].get();
+        return wait_until([this, x] { if (!x->armed || (x->h_old >= 0 && hs[x->h_old].count == 0)) return false; for (int id : x->h_new) if (hs[id].count == 0) return false; return true; });
+    }
+    void close_scenario(int i, int p, bool before_run) {
+        if (!css[i]) return;
+        CS &x = *css[i];
+        { std::lock_guard<std::mutex> l(I.m); if (x.used) { cls["close.skipped_used"]++; return; } x.used = true; cls["close.scenarios"]++; }
+        do_arm(x.s_old, x.sp.olddir, p, x.sp.kind ? x.sock.get() : nullptr);
+        { std::lock_guard<std::mutex> l(I.m); x.h_old = busy[x.s_old][x.sp.olddir]; }
+        Op o; o.k = O_CLOSE; o.a = i;
+        if (before_run) { post_carrier(o, p); do_arm(x.s_aux, 0, p); return; }      // all queued: the registration, the closing handler, one more descriptor operation
+        flush(p);                                                                    // the registration has been carried out
+        if (x.sp.mode == 0) { wait_sleeping(); close_core(i, p); }
+        else if (x.sp.mode == 1) { wait_sleeping(); do_arm(x.s_aux, 0, p); post_carrier(o, p); do_arm(x.s_aux, 1, p); }
+        else post_carrier(o, p);
+        wait_closed(i);
+    }
 
     static int mkpair(int sv[2]) { return ::socketpair(AF_UNIX, SOCK_STREAM | SOCK_CLOEXEC, 0, sv); }
     bool setup(std::string &why) {
-        int ns = c.nslots() + c.nprobe_slots(); probe_slot_next = c.nslots();
+        std::vector<std::pair<int, int>> wanted;        // (scenario index, packed spec); the first O_CLOSE naming an index decides
+        { std::set<int> seen; for (auto &pr : c.progs) for (auto &o : pr) if (o.k == O_CLOSE && seen.insert(o.a % MAXCS).second) wanted.push_back({o.a % MAXCS, o.b}); }
+        if (c.prelude >= 0) wanted.push_back({MAXCS, c.prelude});
+        int ns0 = c.nslots() + c.nprobe_slots(), ns = ns0 + 3 * (int)wanted.size(); probe_slot_next = c.nslots();
         fds.assign(ns, -1); peer.assign(ns, -1); ready.assign(ns, {{false, true}}); hup.assign(ns, false); busy.assign(ns, {{-1, -1}});
         cancels_started.assign(ns, 0); cancel_inflight.assign(ns, 0); last_cancel_end.assign(ns, 0); last_done_cancel_start.assign(ns, 0);
         for (int i = 0; i < c.npairs; i++) {
@@ -662,7 +745,7 @@ struct Scn {
             int sv[2]; if (mkpair(sv)) { why = "socketpair"; return false; }
             allfds.push_back(sv[0]); allfds.push_back(sv[1]); ss_fd.push_back(sv[0]); ss_peer.push_back(sv[1]);
         }
-        for (int s = c.nslots(); s < ns; s++) {       // a pair of its own for every descriptor probe of the later epochs
+        for (int s = c.nslots(); s < ns0; s++) {       // a pair of its own for every descriptor probe of the later epochs
             int sv[2]; if (mkpair(sv)) { why = "socketpair"; return false; }
             allfds.push_back(sv[0]); allfds.push_back(sv[1]); fds[s] = sv[0]; peer[s] = sv[1];
         }
@@ -674,11 +757,29 @@ struct Scn {
         srv.reset(new aio::io_service(c.reactor));
         for (int i = 0; i < c.ndt; i++) dts.emplace_back(new aio::deadline_timer(*srv));
         for (int i = 0; i < c.nstream; i++) { sss.emplace_back(new aio::stream_socket(*srv)); sss.back()->attach(ss_fd[i]); }
+        for (size_t j = 0; j < wanted.size(); j++) {
+            std::unique_ptr<CS> x(new CS); x->sp = unpack_close(wanted[j].second); if (wanted[j].first == MAXCS) x->sp.mode = 1;
+            x->s_old = ns0 + 3 * (int)j; x->s_new = x->s_old + 1; x->s_aux = x->s_old + 2;
+            int sa[2], sb[2]; if (mkpair(sa) || mkpair(sb)) { why = "socketpair"; return false; }
+            fds[x->s_aux] = sa[0]; peer[x->s_aux] = sa[1]; allfds.push_back(sa[0]); allfds.push_back(sa[1]);
+            fds[x->s_old] = sb[0]; peer[x->s_old] = sb[1]; allfds.push_back(sb[1]);
+            if (x->sp.olddir == 1) {       // a write wait stays pending only on a full send buffer
+                int sz = 2048; setsockopt(sb[0], SOL_SOCKET, SO_SNDBUF, &sz, sizeof sz);
+                char b[1024]; memset(b, 'f', sizeof b);
+                for (int n = 0; n < 4096; n++) if (::send(sb[0], b, sizeof b, MSG_DONTWAIT | MSG_NOSIGNAL) < 0) break;
+                struct pollfd pf = {sb[0], POLLOUT, 0};
+                ready[x->s_old][1] = __real_poll(&pf, 1, 0) > 0;
+            }
+            if (x->sp.kind) { x->sock.reset(new aio::stream_socket(*srv)); x->sock->assign(sb[0]); } else allfds.push_back(sb[0]);
+            for (int fd : {sa[0], sa[1], sb[0], sb[1]}) if (fd >= FD_SETSIZE) { why = "fd too large for select"; return false; }
+            css[wanted[j].first] = std::move(x);
+        }
         return true;
     }
     void teardown() {
+        for (auto &x : css) x.reset();
         sss.clear(); dts.clear(); srv.reset();
-        for (int fd : allfds) ::close(fd);
+        for (int fd : allfds) if (fd >= 0) ::close(fd);
         allfds.clear();
         std::lock_guard<std::mutex> l(I.m); I.armed = false; I.snapshot = nullptr;
     }
@@ -699,11 +800,13 @@ struct Scn {
             long want_epoch;
             { std::lock_guard<std::mutex> l(I.m); I.reset(1); I.snapshot = [this] { for (size_t i = 0; i < hs.size(); i++) if (hs[i].count == 0) { owed_sig = std::string(HKN[hs[i].kind]) + ":never-invoked"; owed_msg = hdesc((int)i); return; } };  hs0 = hs.size(); want_epoch = I.epoch_started + 1; if (lt_running) { I.cmd = 1; I.cv.notify_all(); } }
             t0 = booster::ptime::now();
+            if (e == 0 && c.prelude >= 0) close_scenario(MAXCS, -1, true);           // before run() exists: everything is queued
             if (!lt_running) { lt = std::thread([this] { loop_main(); }); lt_running = true; }
             else {      // same thread: it calls reset() and run() again; nothing may touch the service before reset() is over
                 std::unique_lock<std::mutex> l(I.m);
                 if (!I.cv.wait_for(l, std::chrono::seconds(g_watchdog_s), [&] { return I.epoch_started >= want_epoch; })) { I.watchdog = I.abort = true; }
             }
+            if (e == 0 && c.prelude >= 0 && css[MAXCS]) wait_closed(MAXCS);
             if (e > 0) for (int pk : ep.probes) if (!probe(pk)) break;
             std::vector<std::thread> ps;
             if ((e == 0 || ep.rerun) && !aborted()) {
@@ -753,7 +856,7 @@ struct Scn {
         });
         srv->post(F0{this, id});
         if (!wait_until([this, id] { return hs[id].count > 0; })) return false;
-        for (int s = 0; s < (int)fds.size(); s++) do_iocancel(s, -1, false);
+        for (int s = 0; s < (int)fds.size(); s++) if (fds[s] >= 0) do_iocancel(s, -1, false);
         std::vector<int> fars;
         { std::lock_guard<std::mutex> l(I.m); for (size_t i = 0; i < hs.size(); i++) if (hs[i].kind == K_TIMER && hs[i].is_far && !hs[i].cancel_claimed) { hs[i].cancel_claimed = true; fars.push_back((int)i); } }
         for (int f : fars) cancel_timer_handler(f);
@@ -786,7 +889,7 @@ void FE::operator()(error_code const &e) const { s->runE(id, e); }
 void FIO::operator()(error_code const &e, size_t n) const { s->runIO(id, e, n); }
 
 static bool loop_nontrivial(LCase const &c) {
-    if (c.fin == 1 || c.eps.size() > 1) return true;
+    if (c.fin == 1 || c.eps.size() > 1 || c.has_close()) return true;
     std::map<int, int> toucher; bool shared = false, cancel = false;
     for (size_t p = 0; p < c.progs.size(); p++) for (auto &o : c.progs[p]) {
         if (o.k == O_TCANCEL || o.k == O_IOCANCEL || o.k == O_DTCANCEL || o.k == O_SSCANCEL) cancel = true;
@@ -808,6 +911,12 @@ static void serial_signal(int sig) {
 #endif
 #endif
 static void noop_death() {}
+// ThreadSanitizer also tracks descriptors: ::close(fd) on one thread and the library's epoll_ctl(fd) on the loop thread without a
+// happens-before edge are reported as a race on "file descriptor N".  With cancel_io_events() documented as asynchronous and
+// basic_io_device::close() = cancel + ::close, that pair is inherent to closing from another thread (the kernel calls are atomic, either order
+// is handled: EPOLL_CTL_DEL on a closed number fails harmlessly).  Only reports whose stack has the epoll_ctl interceptor itself are
+// suppressed; memory races inside the reactor or the io_service are still reported.
+extern "C" const char *__tsan_default_suppressions() { return "race:^epoll_ctl$\n"; }
 // ThreadSanitizer build: the shared death callback (files, mutexes, allocation) runs inside TSan's report path and has been seen to
 // dead-lock there.  Nothing is done at death time instead: the case being executed is written to the replay directory *before* it
 // runs (note_case) and the report names it as current_case, so lib/verif.py attributes the abnormal exit (rc 79 / signal) to it.
@@ -836,6 +945,7 @@ static Outcome p_loop(LCase const &c) {
     { vr::CaseWriter w; c.encode(w); if (loop_nontrivial(c)) VR.nontrivial(vr::fnv(w.str(), 171)); }
     VR.cls(std::string("loop.case.") + (c.fin ? "stop_race" : "drain")); VR.cls("loop.case.producers=" + std::to_string(c.progs.size()));
     VR.cls("loop.epochs=" + std::to_string(c.eps.size()));
+    if (c.has_close()) VR.cls(std::string("loop.close_case.reactor=") + (c.reactor == 1 ? "select" : c.reactor == 2 ? "poll" : "epoll"));
     if (c.eps.size() > 1) VR.cls(std::string("loop.multi_epoch.reactor=") + (c.reactor == 1 ? "select" : c.reactor == 2 ? "poll" : "epoll"));
     VR.cls(std::string("loop.case.reactor=") + (c.reactor == 1 ? "select" : c.reactor == 2 ? "poll" : "epoll"));
     if (VR.want_sample()) VR.sample("loop: " + c.text().substr(0, 600));
@@ -851,7 +961,7 @@ static rc::Gen<LCase> gen_loop(int reactor) {
         c.npairs = *vr::range<int>(1, 3); c.nblocked = *vr::range<int>(0, 2); c.nstream = *vr::range<int>(0, 2); c.ndt = *vr::range<int>(0, 3);
         c.stop_yield = *vr::range<int>(0, 300);
         auto kind = rc::gen::weightedElement<int>({{10, O_POST}, {1, O_THROW}, {12, O_TIMER}, {9, O_TCANCEL}, {12, O_ARM}, {7, O_IOCANCEL}, {8, O_READY}, {1, O_HUP},
-                                                  {3, O_FLUSH}, {4, O_YIELD}, {3, O_DT}, {2, O_DTCANCEL}, {3, O_SSREAD}, {3, O_SSWRITE}, {1, O_SSCANCEL}});
+                                                  {3, O_FLUSH}, {4, O_YIELD}, {3, O_CLOSE}, {3, O_DT}, {2, O_DTCANCEL}, {3, O_SSREAD}, {3, O_SSWRITE}, {1, O_SSCANCEL}});
         int E = *rc::gen::weightedElement<int>({{5, 1}, {3, 2}, {2, 3}});
         c.eps.assign(E, Epoch());
         for (int e = 0; e < E; e++) {
@@ -866,6 +976,7 @@ static rc::Gen<LCase> gen_loop(int reactor) {
                 for (int i = 0; i < extra; i++) ep.probes.push_back(*vr::range<int>(0, (int)P_MAX));
             }
         }
+        if (*vr::range<int>(0, 5) == 0) c.prelude = pack_close(1, *vr::range<int>(0, 2), *vr::range<int>(0, 2), *vr::range<int>(0, 3));
         c.progs.resize(k);
         for (int p = 0; p < k; p++) {
             int n = *vr::range<int>(1, 15);
@@ -880,6 +991,7 @@ static rc::Gen<LCase> gen_loop(int reactor) {
                 case O_READY: o.a = *vr::range<int>(0, 6); o.b = *vr::range<int>(0, 2); break;
                 case O_HUP: o.a = *vr::range<int>(0, 4); break;
                 case O_YIELD: o.a = *vr::range<int>(1, 40); break;
+                case O_CLOSE: o.a = *vr::range<int>(0, MAXCS); o.b = *vr::range<int>(0, 36); break;
                 case O_DT: o.a = *vr::range<int>(0, 3); o.b = *vr::range<int>(0, 10); o.c = *vr::range<int>(0, 2); break;
                 case O_DTCANCEL: case O_SSREAD: case O_SSCANCEL: o.a = *vr::range<int>(0, 3); break;
                 case O_SSWRITE: o.a = *vr::range<int>(0, 3); o.b = *vr::range<int>(0, 12); break;
@@ -1155,6 +1267,14 @@ int main(int argc, char **argv) {
     if (!g_replay && (mode == "fdops" || mode == "fixed")) {
         vr::install_crash_hooks();
         bool good = true;
+        // close + number re-use grid: reactor x close mode x direction of the closed wait x direction(s) of the new wait x raw / stream_socket
+        if (mode == "fixed") for (int r = 1; r <= 3; r++) for (int m = 0; m < 4; m++) for (int od = 0; od < 2; od++) for (int nd = 0; nd < 3; nd++) for (int kd = 0; kd < 2; kd++) {
+            LCase c; c.reactor = r; c.progs.resize(1); c.progs[0].resize(1);
+            if (m == 1) { c.progs[0][0].k = O_POST; c.prelude = pack_close(1, kd, od, nd); }            // deterministic: issued before run()
+            else { c.progs[0][0].k = O_CLOSE; c.progs[0][0].b = pack_close(m == 3 ? 1 : m, kd, od, nd); }    // m == 3: mode 1 inside a running loop
+            VR.cls("grid.close.cases");
+            good = vr::run_direct("loop", c, p_loop) && good;
+        }
         // restart grid: reactor x how the first run() was stopped x who runs the second one x first operation after reset()
         if (mode == "fixed") for (int r = 1; r <= 3; r++) for (int sm = 0; sm < 2; sm++) for (int rm = 0; rm < 2; rm++) for (int first = 0; first <= P_MAX; first++) {
             LCase c; c.reactor = r; c.progs.resize(1); c.progs[0].resize(1); c.progs[0][0].k = O_POST;
